@@ -18,6 +18,7 @@ EXPLANATION = (
 EXPLANATION_ADDED = '(R4) the credit take succeeds only through the CAS decrement, including the re-check after register (=C03.R2).'
 EXPLANATION_ADDED2 = ' (R5) the stream-closing cells of the reaction table set the closed flag and wake; R1 also decides the polarity of the re-check after register.'
 EXPLANATION = EXPLANATION + " Added while testing against seeded changes: " + EXPLANATION_ADDED + EXPLANATION_ADDED2
+EXPLANATION = EXPLANATION + ' Round 19: (R6) = C03.R7, after a successful credit take every path queues a Push before returning.'
 ASSUMPTIONS = [
     "futures AtomicWaker contract: a wake() that happens after register() wakes the registered task, and loads "
     "performed after register() observe writes made before a concurrent wake()",
